@@ -1,6 +1,6 @@
 """Property -> rules wiring and MANIFEST metadata."""
 from . import facts, sem
-from .rules import f5_trace, f6_kinds, f7_roots, f4_gc, f4_chan, f4_sched, f4_vm, f1_isa, f9_casts, f10_parity, f2_emit, f2_visit, f3_flow, f4_exc, f4_iter, f4_repl, f9_empty, f4_cache, f4_obj, f11_peephole, f8_hazards, f1c_ops
+from .rules import f5_trace, f6_kinds, f7_roots, f4_gc, f4_chan, f4_sched, f4_vm, f1_isa, f9_casts, f10_parity, f2_emit, f2_visit, f3_flow, f4_exc, f4_iter, f4_repl, f9_empty, f4_cache, f4_obj, f11_peephole, f8_hazards, f1c_ops, f9_cursor
 
 
 def D(rec):
@@ -283,6 +283,7 @@ def c16(rec, tier):
     f2_emit.run_constant_kinds(rec, S, F)
     f4_sched.launch_transfers_callee_slot(rec, F)
     f9_casts.run_todo_sites(rec, F)
+    f9_cursor.run(rec, F)
     f9_casts.run_library_indexers(rec, F)
     f9_casts.run_vm_sizes(rec, F)
     f4_vm.hook_exit(rec, F)
